@@ -225,7 +225,7 @@ PROPS = {
     "C04": {
         "level": "proof",
         "level_prefix": "Partial proof -- contracts discharged without bound on the mechanisms named below, not the whole statement (bounded stand-ins and what is left out are listed): ",
-        "units": ["nameorder", "nsec3order"],
+        "units": ["nameorder", "nsec3order", "rdbin"],
         "vx_search": {"bin": "c04_search_small_values", "crate": "replay", "release": True,
                       "what": "about 15000 pairs/triples of small names (57 names of up to two labels over a,A,b,[,NUL,ab,aB) and of small "
                               "Nsec, Nsec3, Nsec3param, Rrsig, Dnskey, Ds, Zonemd, Svcb, Mx, Srv and unknown record data values, checked "
@@ -299,7 +299,9 @@ PROPS = {
                        "cmp/partial_cmp order by type then octets and are Equal exactly on equal values, canonical_cmp is the "
                        "octet order of the RDATA. DNSKEY and DS (real text of the impls of Dnskey and Ds): canonical_cmp == octet order "
                        "of the RDATA (16-bit big-endian head, two octets, key or digest), cmp and partial_cmp agree with it, Dnskey == "
-                       "is field-wise. "
+                       "is field-wise. TLSA, SSHFP and OPENPGPKEY (unit rdbin, real text of the PartialEq/PartialOrd/Ord/CanonicalOrd impls): "
+                       "== holds exactly for values with the same RDATA, canonical_cmp, cmp and partial_cmp are the octet order of the RDATA "
+                       "(lemmas: the field-by-field order is the octet order of the concatenation); ZONEMD == likewise. "
                        "Laws proved over the reference definitions the code is tied to: the name order is antisymmetric, "
                        "transitive, and Equal exactly on names that are name_eq (so order, equality and representation cannot "
                        "disagree). Labels, records (Kani on the compiled generic code, whose comparison code is written with "
@@ -646,7 +648,7 @@ PROPS = {
     "C05": {
         "level": "proof",
         "level_prefix": "Partial proof -- contracts discharged without bound on the mechanisms named below, not the whole statement (bounded stand-ins and what is left out are listed): ",
-        "units": ["rtypebitmap", "tsig", "rdcompose", "rdparse"],
+        "units": ["rtypebitmap", "tsig", "rdcompose", "rdparse", "rdbin"],
         "vx_search": {"bin": "c05_search_small_rdata", "crate": "replay", "release": True,
                       "what": "199 small values of 22 record data types (A, AAAA, MX, SRV, NS, CNAME, PTR, DNAME, SOA, NSEC, RRSIG, DNSKEY, DS, CDS, CDNSKEY, "
                               "TLSA, SSHFP, OPENPGPKEY, NSEC3PARAM, NSEC3, TXT, HINFO; boundary values, mixed-case names, full 32-octet bitmap "
@@ -694,6 +696,12 @@ PROPS = {
                        "compose_rdata() rely on and whose wire form -- the same spec function the composing side is verified against -- is "
                        "the octets read; lemmas: the layouts are injective, so parse(compose(x)) has the fields of x and "
                        "compose(parse(octets)) == octets, for every value and every length (this is the contract that exposed D45). "
+                       "Unit rdbin (rdata/tlsa.rs, sshfp.rs, zonemd.rs, openpgpkey.rs, real text of both directions in one unit): for TLSA, SSHFP, "
+                       "ZONEMD and OPENPGPKEY one spec function wire() per type is what compose_rdata() and compose_canonical_rdata() append, "
+                       "what rdlen() measures (on values within the 65535 limit, which the infallible constructors do not enforce: D40) and what "
+                       "parse() reads -- parse accepts exactly the record data that has the fixed octets (ZONEMD: and a digest of at least 12 "
+                       "octets), consumes all of it and returns a value whose wire form is the octets read; the layouts are injective, so "
+                       "parse(compose(x)) has the fields of x for data of every length. "
                        "Otherwise: bounded/complete contract checking with Kani of the compose/parse/rdlen quadruple on the compiled, "
                        "macro-generated generic code, for the record types CBMC can handle: A and AAAA complete over all values; DS, "
                        "DNSKEY, TLSA, SSHFP, HINFO with small symbolic octet fields; MX and SRV with one fixed name (canonical "
